@@ -21,8 +21,14 @@ import (
 	"flag"
 	"fmt"
 	"math/rand"
+	"runtime"
 	"sort"
+	"strconv"
 	"strings"
+	"sync"
+	"sync/atomic"
+
+	"github.com/twmb/murmur3"
 
 	"github.com/youzan/ZanRedisDB/cluster"
 	"github.com/youzan/ZanRedisDB/cluster/pdnode_coord"
@@ -45,9 +51,9 @@ func newPlaceTopo(dc []int, idScheme int) *placeTopo {
 		ni.RegID = uint64(i)
 		switch idScheme {
 		case 0:
-			ni.NodeIP = fmt.Sprintf("10.0.%d.%d", dc[i-1], i)
+			ni.NodeIP = fmt.Sprintf("10.0.%d.%d", plMax(dc[i-1], 0), i)
 		case 1: // names whose sort order is the reverse of the numbering
-			ni.NodeIP = fmt.Sprintf("10.9.%d.%d", 9-dc[i-1], 99-i)
+			ni.NodeIP = fmt.Sprintf("10.9.%d.%d", 9-plMax(dc[i-1], 0), 99-i)
 			ni.RegID = uint64(100 - i)
 		default:
 			ni.NodeIP = fmt.Sprintf("192.168.%d.%d", (i*7)%5, (i*13)%50)
@@ -62,6 +68,9 @@ func newPlaceTopo(dc []int, idScheme int) *placeTopo {
 }
 
 // nodeMap builds the input map of the live nodes, inserting in the given order.
+// dc[i-1] >= 1: tag dc_info = "dc<k>"; 0: no dc_info tag (Tags nil or empty); -1: dc_info
+// present but the empty string; -2: dc_info present with a non-string value.  The code under
+// test puts all three "absent" flavours into the data centre "".
 func (t *placeTopo) nodeMap(live []int, order []int) map[string]cluster.NodeInfo {
 	m := make(map[string]cluster.NodeInfo)
 	for _, k := range order {
@@ -69,7 +78,18 @@ func (t *placeTopo) nodeMap(live []int, order []int) map[string]cluster.NodeInfo
 		var ni cluster.NodeInfo
 		ni.ID = t.ids[i-1]
 		ni.RegID = uint64(i)
-		ni.Tags = map[string]interface{}{cluster.DCInfoTag: fmt.Sprintf("dc%d", t.dc[i-1])}
+		switch d := t.dc[i-1]; {
+		case d >= 1:
+			ni.Tags = map[string]interface{}{cluster.DCInfoTag: fmt.Sprintf("dc%d", d)}
+		case d == 0:
+			if i%2 == 0 {
+				ni.Tags = map[string]interface{}{"other_tag": "x"}
+			}
+		case d == -1:
+			ni.Tags = map[string]interface{}{cluster.DCInfoTag: ""}
+		default:
+			ni.Tags = map[string]interface{}{cluster.DCInfoTag: 7}
+		}
 		m[ni.ID] = ni
 	}
 	return m
@@ -133,6 +153,8 @@ type placeDrv struct {
 	bal    int // calls under the v1 balance premise with >= 2 nodes
 	incr   int // calls with a previous layout
 	refuse int
+	mixed  int // calls on node sets where some nodes carry a dc tag and some do not
+	bound  int // calls with a namespace name whose hash is a 32-bit boundary value
 	maxN   int
 	maxP   int
 }
@@ -146,6 +168,9 @@ func (d *placeDrv) reset(info string) {
 func plEvenly(t *placeTopo, live []int) (bool, int) {
 	cnt := map[int]int{}
 	for _, i := range live {
+		if t.dc[i-1] < 1 {
+			return false, 0 // the data-centre premise is only read for fully tagged node sets
+		}
 		cnt[t.dc[i-1]]++
 	}
 	first := -1
@@ -197,6 +222,20 @@ func (d *placeDrv) call(t *placeTopo, algo, ns string, P, R int, live []int, old
 	}
 	if n < R {
 		d.refuse++
+	}
+	tg, ut := 0, 0
+	for _, i := range live {
+		if t.dc[i-1] >= 1 {
+			tg++
+		} else {
+			ut++
+		}
+	}
+	if tg > 0 && ut > 0 {
+		d.mixed++
+	}
+	if plIsBoundaryName[ns] {
+		d.bound++
 	}
 	if n > d.maxN {
 		d.maxN = n
@@ -316,9 +355,10 @@ func (d *placeDrv) history(t *placeTopo, ns string, P, R int, live []int, old []
 	}
 }
 
-// allAssignments: every function nodes -> 1..maxdc; canonical = restricted growth strings
-// (one representative per partition of the node set into data centres).
-func plAssignments(n, maxdc int, canonical bool) [][]int {
+// plAssignments: every function nodes -> lo..maxdc (lo = 0 includes "no data-centre tag" as a
+// value); canonical = restricted growth strings over 1..maxdc (one representative per
+// partition of the node set into data centres).
+func plAssignments(n, maxdc int, canonical bool, lo int) [][]int {
 	var out [][]int
 	cur := make([]int, n)
 	var rec func(i, used int)
@@ -331,7 +371,7 @@ func plAssignments(n, maxdc int, canonical bool) [][]int {
 		if canonical && used+1 < lim {
 			lim = used + 1
 		}
-		for d := 1; d <= lim; d++ {
+		for d := lo; d <= lim; d++ {
 			cur[i] = d
 			u := used
 			if d > u {
@@ -342,6 +382,13 @@ func plAssignments(n, maxdc int, canonical bool) [][]int {
 	}
 	rec(0, 0)
 	return out
+}
+
+func plMax(a, b int) int {
+	if a > b {
+		return a
+	}
+	return b
 }
 
 func plMin(a, b int) int {
@@ -362,7 +409,7 @@ func plSeq(n int) []int {
 func plCanonical(dc []int) bool {
 	used := 0
 	for _, d := range dc {
-		if d > used+1 {
+		if d < 1 || d > used+1 {
 			return false
 		}
 		if d > used {
@@ -386,7 +433,8 @@ func placesim(args []string) error {
 	histn := fs.Int("histn", 0, "enum: history depth is reduced by one for topologies with more than this many nodes (0 = never)")
 	multi := fs.Int("multi", 2, "enum: max length of a history that contains a multi-node event (0 = single-node events only)")
 	histns := fs.Int("histns", 0, "enum: history trees only for the first k namespace names (0 = all)")
-	nsl := fs.String("ns", "ns0", "comma separated namespace names (they rotate the ring)")
+	nsl := fs.String("ns", "@pool", "comma separated namespace names (they rotate the ring); @pool = a name of the built-in pool (hash residues and 32-bit boundary hashes), rotating per work unit")
+	untag := fs.Bool("untag", true, "enum: also node sets in which some or all nodes carry no / an empty / a non-string dc_info tag")
 	nrand := fs.Int("n", 500, "rand: number of topologies")
 	shard := fs.Int("shard", 0, "enum: this shard")
 	shards := fs.Int("shards", 1, "enum: number of shards (work units are dealt round robin)")
@@ -403,17 +451,42 @@ func placesim(args []string) error {
 		d.tws = append(d.tws, tw)
 	}
 	names := strings.Split(*nsl, ",")
+	pool, perr := plNamePool()
+	if perr != nil {
+		return perr
+	}
+	// nsFor resolves @pool for work unit u and position nsi of the -ns list
+	nsFor := func(name string, u, nsi int) string {
+		if name != "@pool" {
+			return name
+		}
+		return pool[(u+int(*seed)*13+nsi*31)%len(pool)]
+	}
 	topos := 0
 	units := [2]int{}
 	switch *mode {
+	case "findns":
+		plFindNS()
+		return nil
 	case "enum":
 		for n := 1; n <= *maxn; n++ {
-			for _, dc := range plAssignments(n, *maxdc, false) {
+			lo := 1
+			if *untag {
+				lo = 0
+			}
+			for _, dc := range plAssignments(n, *maxdc, false, lo) {
 				topos++
+				// value 0 = "no usable dc_info tag", in one of three flavours per node
+				for i := range dc {
+					if dc[i] == 0 {
+						dc[i] = []int{0, -1, -2}[(i+topos)%3]
+					}
+				}
 				t := newPlaceTopo(dc, 0)
 				canon := plCanonical(dc)
-				for nsi, ns := range names {
+				for nsi, nsName := range names {
 					for R := 1; R <= *maxr; R++ {
+						ns := nsFor(nsName, units[0]+units[1], nsi)
 						// work units are dealt to the shards separately for cheap (fresh only)
 						// and expensive (with history trees) topologies
 						ci := 0
@@ -468,6 +541,13 @@ func placesim(args []string) error {
 				}
 			}
 			n := len(dc)
+			if d.rng.Intn(4) == 0 { // some nodes without a usable dc_info tag
+				for i := range dc {
+					if d.rng.Intn(3) == 0 {
+						dc[i] = -d.rng.Intn(3)
+					}
+				}
+			}
 			t := newPlaceTopo(dc, d.rng.Intn(3))
 			R := 1 + d.rng.Intn(5)
 			P := 1 + d.rng.Intn(64)
@@ -475,7 +555,10 @@ func placesim(args []string) error {
 				P = n * (1 + d.rng.Intn(64/n))
 			}
 			ns := fmt.Sprintf("ns%d", d.rng.Intn(1000))
-			d.reset(fmt.Sprintf("rand n=%d D=%d P=%d R=%d", n, D, P, R))
+			if d.rng.Intn(2) == 0 {
+				ns = pool[d.rng.Intn(len(pool))]
+			}
+			d.reset(fmt.Sprintf("rand n=%d D=%d P=%d R=%d ns=%s", n, D, P, R, ns))
 			// some nodes may join later
 			live := plSeq(n)
 			if d.rng.Intn(2) == 0 && n > 1 {
@@ -530,10 +613,10 @@ func placesim(args []string) error {
 		}
 	case "isolate":
 		for n := 2; n <= *maxn; n++ {
-			for _, dc := range plAssignments(n, *maxdc, true) {
+			for _, dc := range plAssignments(n, *maxdc, true, 1) {
 				topos++
 				t := newPlaceTopo(dc, 0)
-				ns := names[0]
+				ns := nsFor(names[0], topos, 0)
 				for R := 2; R <= *maxr+1 && R <= n; R++ {
 					for P := 1; P <= 3; P++ {
 						d.reset(fmt.Sprintf("isolate n=%d dc=%v R=%d->%d P=%d", n, dc, R, R-1, P))
@@ -576,6 +659,123 @@ func placesim(args []string) error {
 	summary(map[string]interface{}{"driver": "placesim", "mode": *mode, "seed": *seed, "topologies": topos,
 		"segments": d.seg, "calls": d.calls, "real_invocations": 3 * d.calls, "by_result": d.byRes,
 		"spread_premise_calls": d.spread, "balance_premise_calls": d.bal, "incremental_calls": d.incr,
-		"too_few_nodes_calls": d.refuse, "max_nodes": d.maxN, "max_partitions": d.maxP, "parts": *parts})
+		"too_few_nodes_calls": d.refuse, "mixed_tag_calls": d.mixed, "boundary_hash_name_calls": d.bound,
+		"name_pool": len(pool), "boundary_names": len(plIsBoundaryName), "max_nodes": d.maxN, "max_partitions": d.maxP, "parts": *parts})
 	return nil
+}
+
+// plBoundaryNames: namespace names whose murmur3.Sum32 (the ring offset of both algorithms)
+// sits on a boundary of 32-bit arithmetic: 0, 1, 2, 2^31-2 .. 2^31+1, 2^32-12 .. 2^32-1.
+// Found once by `zrdrive placesim -mode findns` (plFindNS); the hash is re-checked at start-up.
+var plBoundaryNames = map[uint32]string{
+	0: "ns_5296050363",
+	1: "ns_17470401451",
+	2: "ns_895594311",
+	2147483646: "ns_5527484379",
+	2147483647: "ns_12436482958",
+	2147483648: "ns_3841792923",
+	2147483649: "ns_4413977230",
+	4294967284: "ns_1221904655",
+	4294967285: "ns_6830757469",
+	4294967286: "ns_7160835516",
+	4294967287: "ns_308401998",
+	4294967288: "ns_16255294022",
+	4294967289: "ns_1099768074",
+	4294967290: "ns_1262516606",
+	4294967291: "ns_3521087925",
+	4294967292: "ns_5761519505",
+	4294967293: "ns_25949435020",
+	4294967294: "ns_3084276319",
+	4294967295: "ns_1480224582",
+}
+
+var plIsBoundaryName = map[string]bool{}
+
+// plNamePool: 60 names whose hashes cover every residue modulo 60 (= every residue modulo each
+// node count 1..6) interleaved with the boundary names (every fourth entry).
+func plNamePool() ([]string, error) {
+	var bnd []string
+	for _, h := range plBoundaryTargets() {
+		n, ok := plBoundaryNames[h]
+		if !ok {
+			continue
+		}
+		if murmur3.Sum32([]byte(n)) != h {
+			return nil, fmt.Errorf("boundary name %s does not hash to %d", n, h)
+		}
+		bnd = append(bnd, n)
+		plIsBoundaryName[n] = true
+	}
+	res := make([]string, 60)
+	left := 60
+	for i := 0; left > 0; i++ {
+		n := fmt.Sprintf("rs_%d", i)
+		r := murmur3.Sum32([]byte(n)) % 60
+		if res[r] == "" {
+			res[r] = n
+			left--
+		}
+	}
+	var pool []string
+	bi := 0
+	for i, n := range res {
+		pool = append(pool, n)
+		if i%3 == 2 && bi < len(bnd) {
+			pool = append(pool, bnd[bi])
+			bi++
+		}
+	}
+	return pool, nil
+}
+
+// plBoundaryTargets: namespace hashes (murmur3.Sum32, what the placement code derives its
+// ring offset from) at the boundaries of 32-bit arithmetic.
+func plBoundaryTargets() []uint32 {
+	t := []uint32{0, 1, 2, 1<<31 - 2, 1<<31 - 1, 1 << 31, 1<<31 + 1}
+	for k := uint32(1); k <= 12; k++ {
+		t = append(t, 0-k) // 2^32 - k
+	}
+	return t
+}
+
+// plFindNS brute-forces namespace names "ns_<number>" whose hash is one of the boundary
+// targets (run offline once: `zrdrive placesim -mode findns`; the result is embedded below
+// as plBoundaryNames).
+func plFindNS() {
+	targets := map[uint32]bool{}
+	for _, t := range plBoundaryTargets() {
+		targets[t] = true
+	}
+	var mu sync.Mutex
+	found := map[uint32]string{}
+	var done int32
+	G := runtime.NumCPU()
+	var wg sync.WaitGroup
+	for g := 0; g < G; g++ {
+		wg.Add(1)
+		go func(g int) {
+			defer wg.Done()
+			buf := make([]byte, 0, 32)
+			for i := uint64(g); atomic.LoadInt32(&done) == 0; i += uint64(G) {
+				buf = append(buf[:0], "ns_"...)
+				buf = strconv.AppendUint(buf, i, 10)
+				h := murmur3.Sum32(buf)
+				if h+12 > 14 && h-(1<<31-2) > 3 {
+					continue
+				}
+				if targets[h] {
+					mu.Lock()
+					if _, ok := found[h]; !ok {
+						found[h] = string(buf)
+						fmt.Printf("\t%d: %q,\n", h, string(buf))
+						if len(found) == len(targets) {
+							atomic.StoreInt32(&done, 1)
+						}
+					}
+					mu.Unlock()
+				}
+			}
+		}(g)
+	}
+	wg.Wait()
 }
